@@ -308,6 +308,15 @@ func genURLs(r *sim.Rand, flows []flowSpec) []string {
 				add("c.org/" + host[1])
 				add(host[0] + ".evil/" + host[1])
 				add("b." + host[0] + "/" + host[1])
+				// the first path segment presented as one more host label, and the last host label as a path segment
+				if seg := strings.SplitN(host[1], "/", 2); len(seg) == 2 {
+					add(host[0] + "." + seg[0] + "/" + seg[1])
+				} else {
+					add(host[0] + "." + seg[0])
+				}
+				if j := strings.LastIndex(host[0], "."); j > 0 {
+					add(host[0][:j] + "/" + host[0][j+1:] + "/" + host[1])
+				}
 			} else {
 				add(host[0] + ".evil")
 				add(host[0] + ".evil/x")
